@@ -7,6 +7,7 @@ import (
 	"encoding/json"
 	"errors"
 	"fmt"
+	"strings"
 
 	"github.com/bytedance/gopkg/lang/mcache"
 	"github.com/cloudwego/gopkg/bufiox"
@@ -322,7 +323,7 @@ func c12Marshal(c *mc.Ctx, k c12Msg) {
 				bad("exception-not-error", "an EXCEPTION message came back as a protocol exception")
 				return
 			}
-			if k.Pay.Kind == "exception" && (ae.TypeID() != k.Pay.I || ae.Msg() != k.Pay.S[0]) {
+			if strings.Contains(k.Pay.Kind, "exception") && (ae.TypeID() != k.Pay.I || ae.Msg() != k.Pay.S[0]) {
 				bad("exception-content", "exception came back with type id %d text %q, want %d %q", ae.TypeID(), ae.Msg(), k.Pay.I, k.Pay.S[0])
 				return
 			}
@@ -355,6 +356,42 @@ func c12Marshal(c *mc.Ctx, k c12Msg) {
 	})
 	if pi != nil {
 		bad("panic", "panic: %s at %s", pi.Msg, pi.Frame)
+	}
+}
+
+// c12Decorated: see the comment inside.
+func c12Decorated(c *mc.Ctx) {
+	// a rejection that the caller decorated (PrependError, as generated code and servers do for logging) must not change
+	// what later rejections look like: same text, same type id, still matching the canonical exception
+	{
+		c.Eval(1)
+		bad1 := []byte{0x00, 0x01, 0x00, 0x01, 0, 0, 0, 1, 'm', 0, 0, 0, 1}
+		trunc := ref.MessageBegin(nil, "method", 1, 7)[:9]
+		first := func(in []byte) (error, error) {
+			_, _, _, _, e1 := thrift.Binary.ReadMessageBegin(in)
+			r := bufiox.NewBytesReader(in)
+			b := thrift.NewBufferReader(r)
+			_, _, _, e2 := b.ReadMessageBegin()
+			b.Recycle()
+			r.Release(nil)
+			return e1, e2
+		}
+		for _, in := range [][]byte{bad1, trunc} {
+			a1, a2 := first(in)
+			if a1 == nil || a2 == nil {
+				continue // reported elsewhere
+			}
+			t1, t2, id1, id2 := a1.Error(), a2.Error(), protoTypeID(a1), protoTypeID(a2)
+			for round := 0; round < 3; round++ {
+				thrift.PrependError(fmt.Sprintf("conn %d: ", round), a1)
+				thrift.PrependError(fmt.Sprintf("conn %d: ", round), a2)
+				b1, b2 := first(in)
+				if b1 == nil || b2 == nil || b1.Error() != t1 || b2.Error() != t2 || protoTypeID(b1) != id1 || protoTypeID(b2) != id2 {
+					c.Violate("decorated", "C12|rejection-changed-by-earlier-decoration", fmt.Sprintf("after an earlier rejection of %x was decorated with PrependError, the same input is now rejected with %q / %q (before: %q / %q)", in, b1, b2, t1, t2), c12Short{Hex: fmt.Sprintf("%x", in)})
+					break
+				}
+			}
+		}
 	}
 }
 
@@ -489,6 +526,9 @@ func c12Run(c *mc.Ctx) {
 			}
 		}
 	}
+	if c.Shard == 0 {
+		c12Decorated(c)
+	}
 	c.Done("every strict prefix of envelopes with 4 name lengths is rejected by both readers; bad first words on 4..11-byte inputs give BAD_VERSION; name-length boundary values give an error")
 	// (4) MarshalFastMsg -> UnmarshalFastMsg
 	pays := []c11Val{
@@ -499,13 +539,18 @@ func c12Run(c *mc.Ctx) {
 		{Kind: "exception", S: [3]string{"boom"}, I: 6},
 		{Kind: "exception", S: [3]string{""}, I: -1},
 		{Kind: "exception", S: [3]string{string(c01Str(5000))}, I: 0x01020304},
+		// the other exception kinds are FastCodecs too and are sent as EXCEPTION payloads (e.g. the error a stream reader
+		// returned, forwarded to the peer)
+		{Kind: "protocol-exception", S: [3]string{"bad thing"}, I: 4},
+		{Kind: "transport-exception", S: [3]string{"not open"}, I: 1},
+		{Kind: "protocol-exception-with-cause", S: [3]string{"connection reset by peer"}, I: 0},
 	}
 	for _, method := range []string{"m", "method", c12Name(300)} {
 		for _, t := range []int32{0, 1, 2, 3, 4, 65535, 0x10003} {
 			for _, s := range seqs {
 				for _, p := range pays {
 					for _, unk := range []bool{false, true} {
-						if unk && (p.Kind != "exception" || t&0xffff != 3) {
+						if unk && (p.Kind != "exception" || t&0xffff != 3) || (p.Kind != "exception" && strings.Contains(p.Kind, "exception") && t&0xffff != 3) {
 							continue
 						}
 						if !c.Mine() {
@@ -548,6 +593,8 @@ func init() {
 				})
 			case "msg":
 				replayAs(raw, func(k c12Msg) { c12Marshal(c, k) })
+			case "decorated":
+				c12Decorated(c)
 			case "shortbad":
 				replayAs(raw, func(k c12Short) {
 					in, _ := hex.DecodeString(k.Hex)
